@@ -37,6 +37,13 @@ type Pool struct {
 	// needed to load headers and commits to verify evidence
 	blockStore BlockStore
 
+	// admitMtx makes "not pending, not committed, valid: add and count it" one
+	// step. AddEvidence runs once per peer (and for the RPC), CheckEvidence and
+	// Update in the consensus routine: without it the same evidence is counted and
+	// gossiped twice, or becomes pending again after the block carrying it was
+	// committed.
+	admitMtx sync.Mutex
+
 	mtx sync.Mutex
 	// latest state
 	state sm.State
@@ -103,6 +110,9 @@ func (evpool *Pool) PendingEvidence(maxBytes int64) ([]types.Evidence, int64) {
 //  3. Moves pending evidence that has now been committed into the committed pool.
 //  4. Removes any expired evidence based on both height and time.
 func (evpool *Pool) Update(state sm.State, ev types.EvidenceList) {
+	evpool.admitMtx.Lock()
+	defer evpool.admitMtx.Unlock()
+
 	// sanity check
 	if state.LastBlockHeight <= evpool.state.LastBlockHeight {
 		panic(fmt.Sprintf(
@@ -135,6 +145,9 @@ func (evpool *Pool) Update(state sm.State, ev types.EvidenceList) {
 // AddEvidence checks the evidence is valid and adds it to the pool.
 func (evpool *Pool) AddEvidence(ev types.Evidence) error {
 	evpool.logger.Debug("Attempting to add evidence", "ev", ev)
+
+	evpool.admitMtx.Lock()
+	defer evpool.admitMtx.Unlock()
 
 	// We have already verified this piece of evidence - no need to do it again
 	if evpool.isPending(ev) {
@@ -192,6 +205,9 @@ func (evpool *Pool) ReportConflictingVotes(voteA, voteB *types.Vote) {
 // evidence has already been committed or is being proposed twice. It also adds any
 // evidence that it doesn't currently have so that it can quickly form ABCI Evidence later.
 func (evpool *Pool) CheckEvidence(evList types.EvidenceList) error {
+	evpool.admitMtx.Lock()
+	defer evpool.admitMtx.Unlock()
+
 	hashes := make([][]byte, len(evList))
 	for idx, ev := range evList {
 
